@@ -102,6 +102,18 @@ def regen_report_types(status):
     _one('report_types', 'TallyVerif/Gen/ReportTypes.lean', 'TallyVerif.Gen.ReportTypes', produce, status)
 
 
+def regen_amount_tables(status):
+    from .translate import amount_tables
+
+    def produce():
+        src = common.read(os.path.join(common.SRC, 'parsers.py'))
+        text, meta = amount_tables.translate(src)
+        meta['input_sha'] = common.sha(text)
+        return text, meta
+
+    _one('amount_tables', 'TallyVerif/Gen/AmountTables.lean', 'TallyVerif.Gen.AmountTables', produce, status)
+
+
 def regen_c12(status):
     regen_classification(status)
     regen_report_types(status)
@@ -115,4 +127,5 @@ def regen_all():
     regen_fmt_tables(status)
     regen_fs_steps(status)
     regen_report_types(status)
+    regen_amount_tables(status)
     return status
